@@ -202,6 +202,9 @@ def systematic_cases():
            "import": "import module_that_does_not_exist_xyz\n", "recursion": "def f():\n  return f()\nf()\n", "attr": "(5).nope\n", "assert": "assert False, 'no'\n", "type": "len(5)\n",
            "unicode": "x = '\\ud800'.encode('utf-8')\n", "keyerr": "{}['k']\n", "stopiter": "next(iter([]))\n", "oserr": "open('/nonexistent/file/xyz')\n", "genexit": "raise GeneratorExit()\n" if False else "raise LookupError()\n",
            "indent": "  x = 1\n y = 2\n", "tabs": "if True:\n\tx=1\n        y=2\n", "strexc": "class E(Exception):\n  def __str__(self):\n    return 'custom'\nraise E()\n"}
+    # error texts full of formatting metacharacters (str.format fields, %-conversions)
+    bad.update({"msg-braces": "S = {'threads': 4}\nraise ValueError('incomplete settings: {}'.format(S))\n", "msg-field": "x = int('{high}')\n", "msg-percent": "raise RuntimeError('100%s done %(x)s %d {0} {} {name!r}')\n",
+                "keyerr-braces": "{}['{k}']\n", "msg-newlines": "raise ValueError('line one\\nline two {x}\\n')\n", "msg-nonascii": "raise ValueError('caf\u00e9 \u4e2d {\u00e9}')\n"})
     ok_t = "run_command(name='t', run='true')\n"
     for k, code in bad.items():
         cases.append(mk_case(None, False, "python failure in COND: " + k, raw_cond=HELPERS[""] + ok_t + code))
@@ -224,6 +227,20 @@ def systematic_cases():
     cases.append(mk_case(None, False, "NUL byte in COND", raw_cond=b"run_command(name='t', run='true')\n\x00\n"))
     cases.append(mk_case(None, False, "non-UTF-8 include", raw_cond="include('inc.cond')\n" + HELPERS[""] + ok_t, extra_files={"inc.cond": b"X = '\xff'\n"}))
     cases.append(mk_case(None, False, "COND is a directory", raw_cond=HELPERS[""] + "run_command(name='t', run='true', deps=['//dirpkg:x'])\n", extra_files={"dirpkg/COND/keep": "x"}))
+    # malformed names / identifiers made of formatting metacharacters: the diagnostic has to quote them
+    for nm in ("{0}", "{}", "%s", "%(x)s", "{", "}", "{name}", "a{b}c", "100%"):
+        cases.append(mk_case("run_command(name=%r, run='true')\n" % nm, False, "name made of formatting metacharacters %r" % nm))
+        cases.append(mk_case("run_command(name='t', run='true', deps=[%r])\n" % (":" + nm), False, "dependency made of formatting metacharacters %r" % nm))
+        cases.append(mk_case("run_command(name='t', run='true', deps=[%r])\n" % ("//" + nm + ":x"), False, "dependency path made of formatting metacharacters %r" % nm))
+        cases.append(mk_case(None, False, "include() argument made of formatting metacharacters %r" % nm, raw_cond="include(%r)\n" % (nm + ".cond") + HELPERS[""] + ok_t))
+        cases.append(mk_case("run_experiment(name='t', run='true', options={%r: [1]})\n" % nm, False, "bad option value under a key made of formatting metacharacters %r" % nm))
+    # standard-library imports, including modules Conductor itself never loads
+    for mod, expr in (("colorsys", "colorsys.rgb_to_hsv(0, 0, 0)"), ("fractions", "fractions.Fraction(1, 2)"), ("json", "json.dumps([1])"), ("os.path", "os.path.join('a', 'b')"),
+                      ("wave", "wave.__name__"), ("sndhdr" if False else "bisect", "bisect.bisect([1, 2], 1)"), ("itertools", "list(itertools.product([1], [2]))")):
+        cases.append(mk_case(None, True, "import of a standard-library module in COND: " + mod, raw_cond="import %s\nV = %s\n" % (mod, expr) + HELPERS[""] + ok_t))
+        cases.append(mk_case(None, True, "import of a standard-library module in an included file: " + mod, raw_cond="include('inc.cond')\n" + HELPERS[""] + ok_t, extra_files={"inc.cond": "import %s\nV = %s\n" % (mod, expr)}))
+        cases.append(mk_case(None, True, "from-import of a standard-library module in a dependency's COND: " + mod, raw_cond=HELPERS[""] + "run_command(name='t', run='true', deps=['//lib:h2'])\n",
+                             extra_files={"lib/COND": "from %s import *\n" % mod + HELPERS["lib"]}))
     cases.append(mk_case(None, True, "python constructs are allowed", raw_cond=HELPERS[""] + "for i in range(2):\n  run_command(name='q%d' % i, run='true')\nrun_command(name='t', run='true', deps=[':q0', ':q1'])\n"))
     # include matrix
     inc_ok = "THREADS = [1, 2]\nRUN = 'true'\n"
@@ -423,10 +440,13 @@ def main(tier, n=None):
     cli.warm()
     res = common.parallel_map(eval_cases, [(c,) for c in chunks(allc, 60)], timeout=900)
     rep.merge_pool(res)
-    ncli = 70 if tier == "quick" else 800
-    pick = rng.sample(sys_cases, min(len(sys_cases), ncli * 3 // 4)) + rnd[:ncli // 4]
+    # the diagnostics (ERROR line naming the file, no traceback) are produced by the CLI layer only: every systematic
+    # case goes through the real command line, plus a sample of the random ones
+    pick = list(sys_cases) + rnd[:60 if tier == "quick" else 2000]
+    if n:
+        pick = pick[:n]
     pick = [c for c in pick if all(isinstance(v, str) for v in c["files"].values()) or True]
-    res2 = common.parallel_map(cli_cases, [(c,) for c in chunks(pick, 5)], timeout=900)
+    res2 = common.parallel_map(cli_cases, [(c,) for c in chunks(pick, 12)], timeout=900)
     rep.merge_pool(res2)
     rep.evaluations = rep.reach.get("c15_loads", 0) + rep.reach.get("c15_cli_runs", 0)
     rep.distinct = set(rep.extra.get("case_sigs", ()))
